@@ -396,7 +396,16 @@ func TestProp(t *testing.T) {
 			d := rng.Bool()
 			a := alphabet(d)
 			c := Case{Double: d}
-			for n := rng.Range(6, 30); n > 0; n-- {
+			nops := rng.Range(6, 30)
+			long := i%500 == 499 // long lists: growth-biased, 120-300 edits
+			if long {
+				nops = rng.Range(120, 300)
+			}
+			for n := nops; n > 0; n-- {
+				if long && rng.Chance(2, 5) {
+					c.Ops = append(c.Ops, []Op{{K: "append"}, {K: "unshift"}, {"insafter", "middle"}, {"insafter", "last"}}[rng.Intn(4)])
+					continue
+				}
 				c.Ops = append(c.Ops, a[rng.Intn(len(a))])
 			}
 			emit(c)
